@@ -103,6 +103,9 @@ func FindNaluTypes(sample []byte) []NaluType {
 		pos += 4
 		naluType := GetNaluType(sample[pos])
 		naluList = append(naluList, naluType)
+		if uint64(pos)+uint64(naluLength) > uint64(length) {
+			break // length field points beyond the sample
+		}
 		pos += naluLength
 	}
 	return naluList
@@ -121,6 +124,9 @@ func FindNaluTypesUpToFirstVideoNalu(sample []byte) []NaluType {
 		pos += 4
 		naluType := GetNaluType(sample[pos])
 		naluList = append(naluList, naluType)
+		if uint64(pos)+uint64(naluLength) > uint64(length) {
+			break // length field points beyond the sample
+		}
 		pos += naluLength
 		if IsVideoNaluType(naluType) {
 			break // Video has started
@@ -147,6 +153,9 @@ func ContainsNaluType(sample []byte, specificNaluType NaluType) bool {
 		naluType := GetNaluType(sample[pos])
 		if naluType == specificNaluType {
 			return true
+		}
+		if uint64(pos)+uint64(naluLength) > uint64(length) {
+			break // length field points beyond the sample
 		}
 		pos += naluLength
 	}
@@ -199,8 +208,14 @@ func GetParameterSets(sample []byte) (vps, sps, pps [][]byte) {
 	var pos uint32 = 0
 naluLoop:
 	for pos < sampleLength {
+		if uint64(pos)+4 >= uint64(sampleLength) {
+			break // no room for a length field and a NALU header
+		}
 		naluLength := binary.BigEndian.Uint32(sample[pos : pos+4])
 		pos += 4
+		if uint64(pos)+uint64(naluLength) > uint64(sampleLength) {
+			break // length field points beyond the sample
+		}
 		switch naluType := GetNaluType(sample[pos]); {
 		case naluType == NALU_VPS:
 			vps = append(vps, sample[pos:pos+naluLength])
